@@ -281,12 +281,19 @@ pub fn exec_batch(prop: Prop, tier: Tier, tapes: &[Vec<u32>]) -> Vec<Option<Valu
                 continue;
             }
         };
-        {
+        // feed stdin from its own thread: writing everything first would deadlock
+        // against the child's stdout once both pipes are full
+        let feeder = {
             let mut si = child.stdin.take().unwrap();
-            for t in &tapes[idx..] {
-                let _ = writeln!(si, "{}", json!(t));
-            }
-        }
+            let payload: Vec<String> = tapes[idx..].iter().map(|t| json!(t).to_string()).collect();
+            std::thread::spawn(move || {
+                for line in payload {
+                    if writeln!(si, "{line}").is_err() {
+                        break;
+                    }
+                }
+            })
+        };
         let so = child.stdout.take().unwrap();
         let mut got_here = 0usize;
         let mut panic_rec: Option<Value> = None;
@@ -305,6 +312,7 @@ pub fn exec_batch(prop: Prop, tier: Tier, tapes: &[Vec<u32>]) -> Vec<Option<Valu
             }
         }
         let _ = child.wait();
+        let _ = feeder.join();
         idx += got_here;
         if idx < tapes.len() {
             // the child died on tapes[idx]
@@ -744,6 +752,8 @@ pub fn check_main(prop: Prop, tier: Tier, seed: u64) -> i32 {
         }
         unlisted += group.len();
         if reported >= 5 {
+            println!("violation {} ({} runs, first run {}; not minimised: more than five distinct signatures)", sig, group.len(), group[0].run);
+            println!("  {}", group[0].detail.lines().next().unwrap_or(""));
             continue;
         }
         // minimise the shortest tape of the group
